@@ -9,9 +9,9 @@ from mc.runner import Stats
 ID = "C27"
 LEVEL = "exploration"
 TECHNIQUE = "exhaustive enumeration of redirect chains against an RFC 3986 reference resolver"
-RULE = ("every chain of <= 2 (quick) redirect responses, each = code {301,302,303,307,308} x Location from 15 forms "
+RULE = ("every chain of <= 2 (quick) redirect responses, each = code {301,302,303,307,308} x Location from 18 forms "
         "(absolute to the same origin, other scheme, other port, explicit default port, other host inside a directory; "
-        "'/p', 'p', '../p', './', 'd2/', '//b/p', '?q', empty, missing header) x 3 initial URIs (directory path, https, "
+        "'/p', 'p', '../p', './', 'd2/', '//b/p', '?q', empty, missing header) x 5 initial URIs (directory path, https, http on :8443 and https on :80 - so that a redirect can change the scheme while host and explicit/effective port stay equal, "
         "non-default port with query) x methods {GET,HEAD,POST} x redirectLimit {0,1,2} x both agent classes x "
         "inner Deferreds fired synchronously or later x header sets (sensitive defaults + a configured name + a plain "
         "header / no headers); thorough adds chains of 3 over a reduced hop alphabet.  Every request reaching the inner "
@@ -19,7 +19,7 @@ RULE = ("every chain of <= 2 (quick) redirect responses, each = code {301,302,30
         "that received the redirect, count <= limit, method kept for 307/308 and set to GET only where the agent "
         "documents it, no sensitive header on a request whose origin differs from the first request's origin. "
         "non-trivial = distinct executions with >= 1 followed redirect")
-BOUNDS = {"quick": "chains <= 2 over 75 hop symbols", "thorough": "chains <= 2 over 75 hop symbols + chains of 3 over 30"}
+BOUNDS = {"quick": "chains <= 2 over 90 hop symbols", "thorough": "chains <= 2 over 90 hop symbols + chains of 3 over 30"}
 ASSUMPTIONS = [
     "the inner agent answers the i-th request with the i-th response of the chain whatever its URI (any chain of "
     "responses); URIs carry no fragment",
@@ -27,15 +27,17 @@ ASSUMPTIONS = [
     "where the statement is silent (POST on 301/302/307/308 with the strict agent, which documents 'no automatic "
     "redirect') both refusing and following with the unchanged method are accepted",
 ]
-MIN = {"quick": {"evaluations": 640000, "nontrivial": 335000, "outcomes": 6},
+MIN = {"quick": {"evaluations": 700000, "nontrivial": 450000, "outcomes": 6},
        "thorough": {"evaluations": 2700000, "nontrivial": 2000000, "outcomes": 6}}
 
 CODES = [301, 302, 303, 307, 308]
 LOCS = [b"http://a/p", b"https://a/p", b"http://a:8080/p", b"http://a:80/p", b"http://b/d/p", b"https://a:443/s/p",
+        # other scheme, same host and same explicit / effective port (origin = scheme + host + port)
+        b"https://a:8443/p", b"http://a:443/p", b"https://a:80/p",
         b"/p", b"p", b"../p", b"./", b"d2/", b"//b/p", b"?q", b"", None]
 LOCS3 = [b"http://b/d/p", b"https://a/p", b"p", b"../p", b"/p", b"//b/p", b"?q", b"http://a/e/f/p", b"", b"d2/"]
 CODES3 = [302, 303, 307]
-INITIAL = [b"http://a/d/1", b"https://a/1", b"http://a:8080/x/y/1?q=1"]
+INITIAL = [b"http://a/d/1", b"https://a/1", b"http://a:8080/x/y/1?q=1", b"http://a:8443/login", b"https://a:80/1"]
 METHODS = [b"GET", b"HEAD", b"POST"]
 LIMITS = [0, 1, 2]
 SENSITIVE = [b"authorization", b"cookie", b"proxy-authorization", b"x-secret"]
@@ -381,6 +383,8 @@ def run_shard(shard, tier, seed):
                 ("strict", "browser"), limits, INITIAL, METHODS, (True, False), (True, False)):
             if not with_headers and not sync:
                 continue
+            if len(chain) >= 2 and (limit == 0 or not with_headers):
+                continue        # limit 0 and the header-less run are decided by the first hop (covered by the 1-hop chains)
             if len(chain) == 3 and limit < 2:
                 continue
             requests, result = execute(agent_kind, limit, initial, method, chain, sync, with_headers)
